@@ -1,6 +1,7 @@
 package chain
 
 import (
+	"bytes"
 	"errors"
 	"fmt"
 	"net/http"
@@ -56,7 +57,10 @@ func (o Op) String() string {
 	case OpNext:
 		return "Next"
 	case OpWrite:
-		return fmt.Sprintf("Write(%q)", o.S)
+		if len(o.S) > 40 {
+			return fmt.Sprintf("Write[%d](%d bytes %q...)", o.N, len(o.S), o.S[:8])
+		}
+		return fmt.Sprintf("Write[%d](%q)", o.N, o.S)
 	case OpStatus:
 		return fmt.Sprintf("SetStatus(%d)", o.N)
 	case OpHeader:
@@ -66,6 +70,9 @@ func (o Op) String() string {
 	case OpSet:
 		return fmt.Sprintf("Set(%s,%s)", o.S, o.S2)
 	case OpAddError:
+		if o.N > 1 {
+			return fmt.Sprintf("AddError x%d", o.N)
+		}
 		return "AddError"
 	case OpAbort:
 		return "Abort"
@@ -76,7 +83,7 @@ func (o Op) String() string {
 	case OpAbortStatusMsg:
 		return fmt.Sprintf("AbortWithStatus(%d,%q)", o.N, o.S)
 	case OpPanic:
-		return fmt.Sprintf("panic(%s%s)", o.S, [...]string{"", ":http.ErrAbortHandler", ":wrapped-ErrAbortHandler", ":string", ":new-error"}[o.N%5])
+		return fmt.Sprintf("panic(%s%s)", o.S, [...]string{"", ":http.ErrAbortHandler", ":wrapped-ErrAbortHandler", ":string", ":new-error", ":long-string"}[o.N%6])
 	case OpObserve:
 		return "Observe"
 	case OpHTTPError:
@@ -143,7 +150,7 @@ type PanicValue struct{ Label string }
 // sentinel http.ErrAbortHandler (a router has no business treating it specially: containment is for any value),
 // 2 an error wrapping that sentinel, 3 a plain string, 4 a fresh error value.
 func PanicKind(o Op) any {
-	switch o.N % 5 {
+	switch o.N % 6 {
 	case 1:
 		return http.ErrAbortHandler
 	case 2:
@@ -152,12 +159,14 @@ func PanicKind(o Op) any {
 		return "panic-text:" + o.S
 	case 4:
 		return errors.New("panic-error:" + o.S)
+	case 5:
+		return "panic-text:" + o.S + ":" + strings.Repeat("long message ", 40) // > 256 bytes: handed over whole
 	}
 	return &PanicValue{Label: o.S}
 }
 
 // PanicKinds is the generator's menu for Op.N of an OpPanic (the harness's own value most of the time).
-var PanicKinds = []int{0, 0, 0, 1, 1, 2, 3, 4}
+var PanicKinds = []int{0, 0, 0, 1, 1, 2, 3, 4, 5}
 
 // Ctx is what a script needs from a context; implemented by the real
 // rux.Context (RCtx) and by the model (MCtx).
@@ -171,6 +180,7 @@ type Ctx interface {
 	Req() *http.Request
 	SetStatus(code int)
 	SetHeader(k, v string)
+	WriteString(s string) // Context.WriteString: panics with the write error, like rux
 	Length() int
 	Set(k string, v any)
 	Data() map[string]any
@@ -261,6 +271,11 @@ func Run(s *Script, c Ctx, tr *Trace) {
 		case OpNext:
 			c.Next()
 		case OpWrite:
+			if o.N == 1 { // through the context helper instead of the writer
+				c.WriteString(o.S)
+				tr.Add("  %s WriteString(%d bytes) length=%d", s.Name, len(o.S), c.Length())
+				break
+			}
 			n, err := c.Resp().Write([]byte(o.S))
 			tr.Add("  %s write n=%d err=%v length=%d", s.Name, n, err != nil, c.Length())
 		case OpStatus:
@@ -278,7 +293,9 @@ func Run(s *Script, c Ctx, tr *Trace) {
 		case OpSet:
 			c.Set(o.S, o.S2)
 		case OpAddError:
-			c.AddError(fmt.Errorf("%w in %s", ErrScript, s.Name))
+			for i := 0; i < 1 || i < o.N; i++ { // Op.N > 1: that many errors at once
+				c.AddError(fmt.Errorf("%w in %s", ErrScript, s.Name))
+			}
 		case OpAbort:
 			tr.Add("  %s before-abort%s", s.Name, ab(c))
 			c.Abort()
@@ -351,6 +368,12 @@ type wrapWriter struct {
 	http.ResponseWriter
 }
 
+// Write marks what goes through the wrapper (upper case), as a compressing or signing wrapper would transform it: a
+// wrapper that outlives its request shows in the bytes of the next one.
+func (w *wrapWriter) Write(b []byte) (int, error) {
+	return w.ResponseWriter.Write(bytes.ToUpper(b))
+}
+
 func (w *wrapWriter) Flush() {
 	if f, ok := w.ResponseWriter.(http.Flusher); ok {
 		f.Flush()
@@ -401,6 +424,7 @@ func (r *RCtx) Resp() http.ResponseWriter               { return r.C.Resp }
 func (r *RCtx) Req() *http.Request                      { return r.C.Req }
 func (r *RCtx) SetStatus(code int)                      { r.C.SetStatus(code) }
 func (r *RCtx) SetHeader(k, v string)                   { r.C.SetHeader(k, v) }
+func (r *RCtx) WriteString(s string)                    { r.C.WriteString(s) }
 func (r *RCtx) Length() int                             { return r.C.Length() }
 func (r *RCtx) Set(k string, v any)                     { r.C.Set(k, v) }
 func (r *RCtx) Data() map[string]any                    { return r.C.Data() }
@@ -480,7 +504,12 @@ func (m *MCtx) Resp() http.ResponseWriter { return m.resp }
 func (m *MCtx) Req() *http.Request        { return m.Request }
 func (m *MCtx) SetStatus(code int)        { m.W.WriteHeader(code) }
 func (m *MCtx) SetHeader(k, v string)     { m.resp.Header().Set(k, v) }
-func (m *MCtx) Length() int               { return m.W.Length() }
+func (m *MCtx) WriteString(s string) {
+	if _, err := m.resp.Write([]byte(s)); err != nil {
+		panic(err)
+	}
+}
+func (m *MCtx) Length() int { return m.W.Length() }
 func (m *MCtx) Set(k string, v any) {
 	if m.data == nil {
 		m.data = map[string]any{}
